@@ -124,7 +124,8 @@ def canary_tool(ver, vname):
     """The tool must report a deliberate heap out-of-bounds read."""
     cmd, env = worker_cmd(vname, ["canary", "heap_oob"])
     r = subprocess.run(cmd, env=env, stdout=subprocess.PIPE, stderr=subprocess.STDOUT, text=True, errors="replace")
-    fired = r.returncode != 0 and "canary survived" not in r.stdout
+    # ASan/Miri abort at the bad read; memcheck reports it, lets the program finish and exits with --error-exitcode
+    fired = (r.returncode != 0 and "canary survived" not in r.stdout) or r.returncode == 97
     ver.extra.setdefault("canaries", {})["tool_" + vname] = "reported" if fired else "SILENT rc=%d" % r.returncode
     if not fired:
         ver.inconclusive.append("%s did not report the deliberate out-of-bounds read" % vname)
